@@ -194,6 +194,36 @@ def _ocra_ref(c):
     return {'ret': 0, 'otp': otp, 'v_ok': 0, 'v_bad': [E['BAD_PWD']]}
 reg(Composite('botp.OCRA', _impl_ocra, _ocra_ref, group='botp', secrets=('key',)))
 
+# ------------------------------------------------------------------ the bashNNN macro families of bash.h (through drv/vh_macros.c)
+def _impl_bashmacros(lib, c, A, fill):
+    """Start / StepH x fragments / StepG / StepG2 / StepV (right, and the digest wrong in EVERY single octet) / Hash, all through
+    the macros bash256*, bash384*, bash512* -- STB 34.101.77: bashNNN is the hash of level NNN / 2 with a digest of NNN / 8 octets"""
+    N = c['N']; hl = N // 8; src = c['src']
+    st = A.buf(lib.sz('vm_bash%d_keep' % N), fill)
+    out = {'ret': 0}
+    lib.call('vm_bash%dStart' % N, st)
+    cut = len(src) // 3
+    for part in (src[:cut], src[cut:]):
+        lib.call('vm_bash%dStepH' % N, A.buf(part) if part else A.buf(1), len(part), st)
+    h = A.buf(hl, fill); lib.call('vm_bash%dStepG' % N, h, st); out['hash'] = h.get()
+    h2 = A.buf(hl, fill); lib.call('vm_bash%dStepG2' % N, h2, c['g2'], st); out['hash_g2'] = h2.get(c['g2'])
+    good = lib.call('vm_bash%dStepV' % N, A.buf(out['hash']), st) & 0xFFFFFFFF
+    if good == 0x7FFFFFFF:
+        out['stepv'] = 'absent'
+    else:
+        rej = []
+        for j in range(hl):
+            x = bytearray(out['hash']); x[j] ^= 0x01 << (j % 8)
+            if lib.call('vm_bash%dStepV' % N, A.buf(bytes(x)), st) & 0xFFFFFFFF:
+                rej.append(j)
+        out['stepv'] = 'right=%d accepted-wrong-octets=%s' % (1 if good else 0, rej)
+    h3 = A.buf(hl, fill); out['ret'] = lib.err('vm_bash%dHash' % N, h3, A.buf(src) if src else A.buf(1), len(src)); out['hash_oneshot'] = h3.get()
+    return out
+def _ref_bashmacros(c):
+    N = c['N']; d = RB.bash_hash(N // 2, c['src'])
+    return {'ret': 0, 'hash': d, 'hash_g2': d[:c['g2']], 'stepv': 'right=1 accepted-wrong-octets=[]', 'hash_oneshot': d}
+reg(Composite('bash.macros', _impl_bashmacros, _ref_bashmacros, group='bash'))
+
 # ------------------------------------------------------------------ cases
 def rate(l):
     return 192 - l // 2          # hash rate in octets for level l (buf_len = 192 - l/2)
@@ -207,6 +237,11 @@ def gen_cases(tier):
         x = bytearray(192); x[b // 8] |= 1 << (b % 8); blocks.append(bytes(x))
     blocks += [vf.filler('bf%d' % i, 192) for i in range(64 if tier == 'thorough' else 8)]
     out += [('bash.F', dict(block=b)) for b in blocks]
+    for N in (256, 384, 512):
+        r_ = 192 - N // 4
+        for n in (0, 1, r_ - 1, r_, r_ + 1, 2 * r_ + 1):
+            for g2 in (0, 1, N // 8 - 1, N // 8):
+                out.append(('bash.macros', dict(N=N, src=data(n), g2=g2)))
     # bash hash: every level x every length 0..2r+1
     for l in range(16, 257, 16):
         r = rate(l)
